@@ -16,3 +16,7 @@ impl StringM {
     #[verifier::external_body]
     pub fn from_utf8_lossy(b: &[u8]) -> (r: Lossy) ensures r.s@ == lossy(b@) { unimplemented!() }
 }
+// R6: `s.as_bytes().to_vec()`: the UTF-8 bytes of a string slice, copied
+pub uninterp spec fn str_bytes(s: &str) -> Seq<u8>;
+#[verifier::external_body]
+pub fn str_to_vec(s: &str) -> (r: Vec<u8>) ensures r@ == str_bytes(s) { unimplemented!() }
